@@ -557,8 +557,11 @@ func harnessParseCmd(line string) (cmd, arg string, ok bool) {
 
 func (st *smtpStack) modelLine(stream []byte, blocks [][]byte, budget string) string {
 	e := st.env
-	reEntries, argEntries, ipParts := []string{}, []string{}, map[string]bool{}
-	seenRe, seenArgs := map[string]bool{}, map[string]bool{}
+	// The MAIL expressions are no longer oracle fields: the driver computes fromRegex / parseArgs with the model's own recognisers
+	// (Ibx.Model.MailArgs; their tie is c06_args.go).  Go's match is still consulted here, for one thing only: which strings the address
+	// model may hand to net.ParseIP (the `ip=` oracle table) — an address the two sides read differently shows up as a reply divergence.
+	ipParts := map[string]bool{}
+	seenRe := map[string]bool{}
 	addIP := func(a string) {
 		t := ipTable(a)
 		if t != "ip=-" {
@@ -574,34 +577,8 @@ func (st *smtpStack) modelLine(stream []byte, blocks [][]byte, budget string) st
 		}
 		if cmd == "MAIL" && !seenRe[arg] {
 			seenRe[arg] = true
-			m := smtp.VerifFromRegex().FindStringSubmatch(arg)
-			if m == nil {
-				reEntries = append(reEntries, core.HexS(arg)+"~0")
-			} else {
-				reEntries = append(reEntries, fmt.Sprintf("%s~1~%s~%s", core.HexS(arg), core.HexS(m[1]), core.HexS(m[2])))
+			if m := smtp.VerifFromRegex().FindStringSubmatch(arg); m != nil {
 				addIP(m[1])
-				if m[2] != "" && !seenArgs[m[2]] {
-					seenArgs[m[2]] = true
-					args, ok := smtp.VerifParseArgs(m[2])
-					if !ok {
-						argEntries = append(argEntries, core.HexS(m[2])+"~none")
-					} else {
-						keys := []string{}
-						for k := range args {
-							keys = append(keys, k)
-						}
-						sort.Strings(keys)
-						ps := []string{}
-						for _, k := range keys {
-							ps = append(ps, core.HexS(k)+":"+core.HexS(args[k]))
-						}
-						if len(ps) == 0 {
-							argEntries = append(argEntries, core.HexS(m[2])+"~_")
-						} else {
-							argEntries = append(argEntries, core.HexS(m[2])+"~"+strings.Join(ps, ","))
-						}
-					}
-				}
 			}
 		}
 		if cmd == "RCPT" && len(arg) >= 3 {
@@ -639,9 +616,9 @@ func (st *smtpStack) modelLine(stream []byte, blocks [][]byte, budget string) st
 		}
 		return strings.Join(l, sep)
 	}
-	return fmt.Sprintf("run naming=%s %s maxrcpt=%d maxbytes=%d cap=%d domain=%s rhost=%s ts=%s ip=%s re=%s args=%s hdr=%s hookmail=%s hookrcpt=%s hookstored=%s fail=%s budget=%s inp=%s",
+	return fmt.Sprintf("run naming=%s %s maxrcpt=%d maxbytes=%d cap=%d domain=%s rhost=%s ts=%s ip=%s hdr=%s hookmail=%s hookrcpt=%s hookstored=%s fail=%s budget=%s inp=%s",
 		e.naming, e.pol.line(), e.maxRcpt, e.maxBytes, e.cap, core.HexS("inbucket.test"), core.HexS("pipe"), core.HexS("TS"), smtpIPField(ips),
-		join(reEntries, ";"), join(argEntries, ";"), join(hdrEntries, ";"), hookTable(e.hookMail), hookTable(e.hookRcpt), join(hs, ";"), core.HexList(e.failBoxes), budget, core.Hex(stream))
+		join(hdrEntries, ";"), hookTable(e.hookMail), hookTable(e.hookRcpt), join(hs, ";"), core.HexList(e.failBoxes), budget, core.Hex(stream))
 }
 
 // smtpIPField: the `ip=` field of a `run` line.  The SMTP model answers net.ParseIP with its own model (Ibx/Model/ParseIP.lean, tied to
